@@ -58,7 +58,7 @@ def crash_signature(prop, crash):
 
 
 LADDER_STREAMS = ["ladder-list", "ladder-dict", "ladder-grid", "ladder-list-in-dict", "ladder-gridmeta", "ladder-xstr-paren",
-                  "ladder-json-list", "ladder-json-dict", "ladder-json-grid", "ladder-paren", "ladder-paren-and", "ladder-not-paren", "ladder-paren-sibling", "ladder-paren-sibling2", "ladder-runs"]
+                  "ladder-json-list", "ladder-json-dict", "ladder-json-grid", "ladder-paren", "ladder-paren-and", "ladder-not-paren", "ladder-paren-sibling", "ladder-paren-sibling2", "ladder-runs", "ladder-flat", "ladder-flat-and", "ladder-flat-or", "ladder-flat-mixed"]
 
 WELLFORMED = ("well-formed values only (C01 clause): identifier tag/column names, Ref/Symbol bodies over the id alphabet, "
               "Symbols start with a lower-case letter, XStr types [A-Z][A-Za-z0-9_]* except the literal 'C', Uris without "
